@@ -459,6 +459,9 @@ def float_error_outcomes():
         'complex-power-simultaneous': "x = (0-2.)**0.5\nMaxTime = 2",
         'complex-power-decorative': "y = 0.5*y - 3.\nd = y**0.5\nMaxTime = 2",
         'complex-second-period': "y = 10. - 8.*k\nz = y**0.5 + 0*z\nMaxTime = 3",
+        # a value that overflows at time zero only (computed from constants and k = 0), carried into period 1 by a lag / used by a decorative variable
+        'overflow-at-time-zero-lagged': "y = 1e308*max(1-k, 0.)*10\nLAG_y = y(k-1)\nx = 0.5*x + 1\nMaxTime = 2",
+        'overflow-at-time-zero-decorative': "c = 1e308\nd = c*10*max(1-k, 0.)\nL = d(k-1)\nx = 0.5*x + 1\nMaxTime = 2",
     }
     out = []
     for name, text in sorted(blocks.items()):
@@ -476,7 +479,7 @@ def float_error_outcomes():
             if err is None:
                 cx = {v: x for v in es.TimeSeries for x in es.TimeSeries[v] if isinstance(x, complex)}
                 out.append((name, red, False, 'reported as solved%s' % ('; complex values stored for %r' % sorted(cx) if cx else '')))
-            elif len(set(lens.values())) != 1:
+            elif len(set(lens.values())) > 1:      # (no series at all - refused before the first period - is 'equal length' too)
                 out.append((name, red, False, 'raises %s but leaves series of unequal length %r' % (type(err).__name__, lens)))
             else:
                 out.append((name, red, True, type(err).__name__))
